@@ -24,3 +24,32 @@ package taproot
 //@   modifies nothing
 //@   allocates
 //@   ensures[C16,C01] result == bip340_ok(pk, sig, m)
+
+// x-only public key (C16): x(d*G) for a canonical non-zero secret d.
+//@ func (SecretKey).Public
+//@   nopanic[C05,C16]
+//@   modifies nothing
+//@   allocates
+//@   ensures[C16] result1 == nil ==> (len(s) == 32 && sc_canon(bval(s)) && sc_of_bytes(bval(s)) != s_zero())
+//@   ensures[C16] result1 == nil ==> (len(result0) == 32 && bval(result0) == xbytes(act(sc_of_bytes(bval(s)), gen())))
+
+// BIP-340 default signing (C16, C11), the steps that fix WHAT is hashed and signed:
+//   d' = int(sk) (fail if 0 or >= n), P = d'*G, d = d' if has_even_y(P) else n - d'
+//   t = bytes(d) xor tagged("BIP0340/aux", a)           -- computed in place on the encoding of the NORMALISED d
+//   rand = tagged("BIP0340/nonce", t || bytes(P) || m),  k' = int(rand) mod n (fail if 0), R = k'*G, k = k' or n - k'
+//   e = int(tagged("BIP0340/challenge", bytes(R) || bytes(P) || m)) mod n,  sig = bytes(R) || bytes((k + e*d) mod n)
+//@ axiom forall(x, integer, s_neg(s_neg(x)) == x)
+//@ func (SecretKey).Sign
+//@   nopanic[C05,C16]
+//@   let d0 = sc_of_bytes(bval(sk))
+//@   let Pv = act(d0, gen())
+//@   let dn = ite(even_y(Pv), d0, s_neg(d0))
+//@   assert_at[C16,C11] MarshalBinary "t, _ := d.MarshalBinary()": scval(arg0) == dn && bval(PBytes) == xbytes(Pv)
+//@   assert_at[C16,C11] TaggedHash "aHash := TaggedHash(": len(arg1) == 1 && arg1[0] == a
+//@   assert_at[C16,C11] TaggedHash "randHash := TaggedHash(": len(arg1) == 3 && arg1[0] == t[:] && arg1[1] == PBytes && arg1[2] == m && bval(PBytes) == xbytes(Pv)
+//@   assert_at[C16,C11] UnmarshalBinary "_ = k.UnmarshalBinary(randHash)": arg0 == k && arg1 == randHash
+//@   assert_at[C16] TaggedHash "eHash := TaggedHash(": len(arg1) == 3 && arg1[0] == RBytes && arg1[1] == PBytes && arg1[2] == m && bval(PBytes) == xbytes(Pv) && bval(RBytes) == xbytes(ptval(R))
+//@   assert_at[C16] TaggedHash "eHash := TaggedHash(": ptval(R) == act(ite(even_y(ptval(R)), scval(k), s_neg(scval(k))), gen())
+//@   assert_at[C16] MarshalBinary "zBytes, _ := z.MarshalBinary()": scval(z) == s_add(s_mul(sc_mod(bval(eHash)), dn), scval(k))
+//@   ensures[C16] result1 == nil ==> len(result0) == 64
+//@   loop 1: invariant k != nil && d != nil && a != nil && len(a) == 32 && P != nil && scval(d) == dn && len(PBytes) == 32 && bval(PBytes) == xbytes(Pv) && fresh(k) && fresh(d) && fresh(a)
